@@ -465,6 +465,54 @@ func rC10CopyOptions(w *World, r *Report) {
 	}
 	rec := len(callsTo(fn, "getoptions.copyOptionsFromParent")) > 0
 	ru.Check(rec, "copy/recursive", w.Pos(fn.Pos()), "recurses into the children", "grand-children do not inherit")
+	// every child is recursed into (a child that receives nothing itself still hands its own options down), and the
+	// copy loops are only left when exhausted
+	ig := buildIG(fn)
+	for _, c := range callsTo(fn, "getoptions.copyOptionsFromParent") {
+		var h *ssa.BasicBlock
+		for _, cand := range loopHeaders(fn) {
+			if naturalLoop(cand)[c.Block()] && (h == nil || naturalLoop(h)[cand]) {
+				h = cand
+			}
+		}
+		if h == nil {
+			ru.Bad("copy/recursive/every-child", w.IPos(c), "the recursive call is not in a loop over the children")
+			continue
+		}
+		loop := naturalLoop(h)
+		var starts []int
+		for _, s := range h.Succs {
+			if loop[s] {
+				starts = append(starts, ig.first[s])
+			}
+		}
+		ok, _ := ig.mustPass(starts, func(in ssa.Instruction) bool { return in == ssa.Instruction(c) }, func(in ssa.Instruction) bool { return in == h.Instrs[0] })
+		ru.Check(ok, "copy/recursive/every-child", w.IPos(c), "every iteration over the children recurses", "some children are not recursed into (a `continue` meant for the copy also skips the descent): the commands below them inherit nothing, not even that child's own options")
+	}
+	eachInstr(fn, func(in ssa.Instruction) {
+		mu, ok := in.(*ssa.MapUpdate)
+		if !ok {
+			return
+		}
+		early := ""
+		for _, h := range loopHeaders(fn) {
+			loop := naturalLoop(h)
+			if !loop[mu.Block()] {
+				continue
+			}
+			for b := range loop {
+				if b == h {
+					continue
+				}
+				for _, s := range b.Succs {
+					if !loop[s] {
+						early = w.IPos(b.Instrs[len(b.Instrs)-1])
+					}
+				}
+			}
+		}
+		ru.Check(early == "", "copy/loops-exhausted", w.IPos(mu), "the copy loops end only when every option and every child was visited", "a copy loop is left early (at "+early+"): the children (or options) after that point are skipped, depending on map order")
+	})
 	for _, caller := range []string{"(*getoptions.GetOpt).NewCommand", "(*getoptions.GetOpt).HelpCommand"} {
 		cf := w.Fn(caller)
 		ok := cf != nil && len(callsTo(cf, "getoptions.copyOptionsFromParent")) > 0
